@@ -26,6 +26,9 @@ CANON = {
     "repeat_count": "control::jr:count", "appearance": "control::appearance",
     "save_to": "bind::entities:saveto", "image": "media::image", "audio": "media::audio",
     "video": "media::video", "big-image": "media::big-image",
+    # control columns (aliases.survey_header): body::x, autoplay, rows, count / jr:count
+    "body": "control", "autoplay": "control::autoplay", "rows": "control::rows",
+    "count": "control::jr:count", "jr:count": "control::jr:count",
 }
 
 
@@ -119,3 +122,29 @@ def observe(xform: str) -> dict:
         "setvalues": setvalue_refs,
         "ctl": ctl,
     }
+
+
+def attr_name(a: str) -> str:
+    if "}" in a:
+        ns, loc = a[1:].split("}", 1)
+        return PREFIX_OF.get(ns, "ns") + ":" + loc
+    return a
+
+
+def observe_controls(xform: str) -> list:
+    """Body controls in document order as [tag, ref-or-nodeset, {attribute: value}] — every attribute
+    except `ref` / `nodeset`; label / hint / item / itemset / setvalue children are not part of it.
+    `jr:count` is reduced to `${<last path segment>}` (which node it names; the path form is C03's)."""
+    root = ET.fromstring(xform)
+    body = root.find("h:body", NS)
+    out = []
+    for el in body.iter():
+        t = local(el.tag)
+        if t in CONTROL_TAGS:
+            for a in ("ref", "nodeset"):
+                if a in el.attrib:
+                    attrs = {attr_name(k): v for k, v in el.attrib.items() if k not in ("ref", "nodeset")}
+                    if "jr:count" in attrs:
+                        attrs["jr:count"] = "${" + attrs["jr:count"].strip().split("/")[-1] + "}"
+                    out.append(["odk:rank" if t == "rank" else t, el.get(a), attrs])
+    return out
